@@ -214,7 +214,16 @@ impl Driver {
     pub fn sequential(&self) -> (Vec<Vec<String>>, u64) {
         let d = self.fresh_dict();
         let fp0 = fingerprint(&d, &self.words());
-        (self.jobs.iter().map(|j| run_job(&self.fresh_dict(), j)).collect(), fp0)
+        // every text of a thread's stream on a dictionary (and tokenizer) of its own: the result for an
+        // input does not depend on what the dictionary was asked before
+        let per_job = |j: &Job| -> Vec<String> {
+            match j {
+                Job::Tokenize { mode, texts } => texts.iter().flat_map(|t| run_job(&self.fresh_dict(), &Job::Tokenize { mode: *mode, texts: vec![t.clone()] })).collect(),
+                Job::TokenizeSubset { mode, subset, texts } => texts.iter().flat_map(|t| run_job(&self.fresh_dict(), &Job::TokenizeSubset { mode: *mode, subset: *subset, texts: vec![t.clone()] })).collect(),
+                other => run_job(&self.fresh_dict(), other),
+            }
+        };
+        (self.jobs.iter().map(per_job).collect(), fp0)
     }
 
     /// run one schedule: replay `prefix`, then always continue the running thread (choice 0)
@@ -489,6 +498,29 @@ fn first_use_world() -> Arc<World> {
     Arc::new(World::build(spec).expect("W-conc-first-use"))
 }
 
+/// a dictionary of 1300 words (more than any small table of "recently used" entries holds) and a
+/// text that contains 1200 of them
+fn many_words_world() -> (Arc<World>, String, String) {
+    static W: std::sync::OnceLock<(Arc<World>, String, String)> = std::sync::OnceLock::new();
+    W.get_or_init(|| {
+        let mut spec = spec_min("W-conc-many-words");
+        let kana: Vec<char> = "かきくけこさしすせそたちつてとなにぬねのはひふへほまみむめもやゆよらりるれろ".chars().collect();
+        let mut text = String::new();
+        let mut first = String::new();
+        for i in 0..1300usize {
+            let w: String = [kana[i % 37], kana[(i / 37) % 37], 'ん', kana[(i * 7 + 3) % 37]].iter().collect();
+            spec.system.push(Row::new(&w, 1, 1, -20000, P_NOUN).reading(&format!("ヨミ{}", i)).norm(&format!("{}正", w)));
+            if i == 0 {
+                first = w.clone();
+            } else if i <= 1200 {
+                text.push_str(&w);
+            }
+        }
+        (Arc::new(World::build(spec).expect("W-conc-many-words")), first, text)
+    })
+    .clone()
+}
+
 fn drivers_for(tier: Tier, world: &Arc<World>, first: &Arc<World>) -> Vec<(Driver, Vec<usize>)> {
     let t = |m: Mode, v: &[&str]| Job::Tokenize { mode: m, texts: v.iter().map(|s| s.to_string()).collect() };
     let ts = |m: Mode, bits: u32, v: &[&str]| Job::TokenizeSubset { mode: m, subset: bits, texts: v.iter().map(|s| s.to_string()).collect() };
@@ -506,6 +538,10 @@ fn drivers_for(tier: Tier, world: &Arc<World>, first: &Arc<World>) -> Vec<(Drive
             (Driver { label: "2 threads, different field requests on user-dictionary words".into(), world: w(), jobs: vec![ts(Mode::C, POS_ONLY, &["東京府すだち"]), t(Mode::A, &["東京府すだち"])] }, vec![0, 1, 2]),
             (Driver { label: "2 threads, field requests that differ in the two highest fields only".into(), world: w(), jobs: vec![ts(Mode::C, ALL_BUT_TWO_HIGHEST, &["東京府京都"]), t(Mode::C, &["東京府京都"])] }, vec![0, 1]),
             (Driver { label: "2 threads, astral and BMP characters with the same low sixteen bits".into(), world: w(), jobs: vec![t(Mode::C, &["\u{20041}\u{20042}x", "\u{1d400}"]), t(Mode::C, &["Aあ", "\u{d400}B"])] }, vec![0, 1]),
+            {
+                let (mw, one, many) = many_words_world();
+                (Driver { label: "2 threads, a word before and after 1200 other words of a 1300-word dictionary".into(), world: mw, jobs: vec![t(Mode::C, &[&one, &many, &one]), t(Mode::C, &[&one])] }, vec![0])
+            },
         ],
         Tier::Thorough => vec![
             (Driver { label: "2 threads x 2 analyses".into(), world: w(), jobs: vec![t(Mode::A, &["東京都に行く二千三百円", "カタカタア(あ)"]), t(Mode::C, &["1,000円㍿東京府", "すだちxag-2f"])] }, vec![0, 1, 2]),
@@ -517,6 +553,10 @@ fn drivers_for(tier: Tier, world: &Arc<World>, first: &Arc<World>) -> Vec<(Drive
             (Driver { label: "3 threads, different field requests on user-dictionary words".into(), world: w(), jobs: vec![ts(Mode::C, POS_ONLY, &["東京府すだち"]), t(Mode::A, &["東京府すだち"]), ts(Mode::B, 0, &["ぴらる都府"])] }, vec![0, 1, 2]),
             (Driver { label: "3 threads, field requests that differ in the two highest fields only".into(), world: w(), jobs: vec![ts(Mode::C, ALL_BUT_TWO_HIGHEST, &["東京府京都"]), t(Mode::C, &["東京府京都"]), ts(Mode::A, ALL_BUT_TWO_HIGHEST | (1 << 9), &["京都東京府"])] }, vec![0, 1, 2]),
             (Driver { label: "2 threads, astral and BMP characters with the same low sixteen bits".into(), world: w(), jobs: vec![t(Mode::C, &["\u{20041}\u{20042}x", "\u{1d400}"]), t(Mode::C, &["Aあ", "\u{d400}B"])] }, vec![0, 1, 2]),
+            {
+                let (mw, one, many) = many_words_world();
+                (Driver { label: "2 threads, a word before and after 1200 other words of a 1300-word dictionary".into(), world: mw, jobs: vec![t(Mode::C, &[&one, &many, &one]), t(Mode::C, &[&one, &one])] }, vec![0, 1])
+            },
         ],
     }
 }
@@ -531,7 +571,14 @@ pub fn free_rounds(tier: Tier, rounds: usize) -> Result<u64, String> {
     let world = concurrency_world();
     let first = first_use_world();
     let mut runs = 0u64;
-    for (d, _) in drivers_for(tier, &world, &first) {
+    let mut all: Vec<Driver> = drivers_for(tier, &world, &first).into_iter().map(|(d, _)| d).collect();
+    // monitor only (far too many threads to enumerate): 24 threads on texts of different scripts
+    {
+        let scripts = ["カタカナ123abc", "東京都に行く", "1,234円xy", "абв αβγ abc", "すだちア㍿", "二千三百万"];
+        let jobs: Vec<Job> = (0..24).map(|i| Job::Tokenize { mode: [Mode::A, Mode::B, Mode::C][i % 3], texts: vec![scripts[i % scripts.len()].repeat(8), scripts[(i + 1) % scripts.len()].repeat(8)] }).collect();
+        all.push(Driver { label: "24 threads, texts of different scripts (monitor only)".into(), world: world.clone(), jobs });
+    }
+    for d in all {
         let (expected, fp0) = d.sequential();
         for _ in 0..rounds {
             let dict = d.fresh_dict();
